@@ -324,7 +324,7 @@ func (h *Handler) ProcessPacket(frame packet.Frame) error {
 
 func getClientID(p packet.DHCP4, options packet.DHCP4Options) []byte {
 	clientID, ok := options[packet.DHCP4OptionClientIdentifier]
-	if !ok {
+	if !ok || len(clientID) == 0 { // an empty option 61 identifies nobody (and a lease without id is not restored)
 		clientID = p.CHAddr()
 	}
 	return clientID
